@@ -638,13 +638,13 @@ impl C12 {
         }
     }
 
-    /// a silent UDP server while a third party keeps sending datagrams to the client's port: the stray traffic may be
-    /// taken for a (malformed) reply or ignored, but it must not keep the query alive beyond attempts x timeout
+    /// one blocking step under stray traffic: the queried server is silent while a third party sends datagrams to the
+    /// client's port every timeout/4. A single `receive` returns within the read timeout - with a stray datagram or
+    /// with a timeout error - it never waits for as long as the stray traffic lasts. (Whole queries are not judged
+    /// here: a protocol that collects parts until a terminator may rightly keep reading while parts keep arriving.)
     fn udp_stray_case(&self, cx: &mut Cx) {
         let v6 = cx.rng.bool();
         let timeout = *cx.rng.pick(&[120u64, 300]);
-        let retries = cx.rng.below(3) as usize;
-        let which = cx.rng.below(3);
         let Ok(server) = std::net::UdpSocket::bind(SocketAddr::new(lo(v6), 0)) else { return cx.inconclusive("cannot bind loopback socket") };
         let Ok(stray) = std::net::UdpSocket::bind(SocketAddr::new(lo(v6), 0)) else { return cx.inconclusive("cannot bind loopback socket") };
         let addr = server.local_addr().unwrap();
@@ -679,41 +679,46 @@ impl C12 {
             sent
         });
         let d = Duration::from_millis(timeout);
-        let ts = TimeoutSettings::new(Some(d), Some(d), Some(d), retries).ok();
-        let bound = Duration::from_millis(timeout * (retries as u64 + 1) * 8) + Duration::from_secs(3);
+        let ts = TimeoutSettings::new(Some(d), Some(d), Some(d), 0).ok();
+        let bound = Duration::from_millis(timeout * 4) + Duration::from_secs(3);
         let t0 = Instant::now();
         let (tx, rx) = std::sync::mpsc::channel();
         let q = std::thread::spawn(move || {
-            let (o, _) = guarded(|| match which {
-                0 => gamedig::protocols::quake::two::query(&addr, ts).map(|_| ()).map_err(|e| e.kind),
-                1 => gamedig::protocols::gamespy::one::query(&addr, ts).map(|_| ()).map_err(|e| e.kind),
-                _ => gamedig::protocols::valve::query(&addr, gamedig::protocols::valve::Engine::new(440), None, ts).map(|_| ()).map_err(|e| e.kind),
+            let (o, _) = guarded(|| {
+                let mut s = UdpSocketImpl::new(&addr, &ts)?;
+                s.send(b"\xff\xff\xff\xffstatus\0")?;
+                // three receives in a row: each of them is one blocking step
+                let mut got = Vec::new();
+                for _ in 0 .. 3 {
+                    let t = Instant::now();
+                    let r = s.receive(None);
+                    got.push((t.elapsed(), r.is_ok()));
+                }
+                Ok::<_, gamedig::GDError>(got)
             });
             let _ = tx.send(o);
         });
-        // a query that never ends is cut loose after a generous deadline (the stray sender stops, which ends it)
         let r = rx.recv_timeout(bound * 3 + Duration::from_secs(5));
         let el = t0.elapsed();
         stop.store(true, std::sync::atomic::Ordering::SeqCst);
         let sent = h.join().unwrap_or(0);
         let _ = q.join();
         cx.eval();
-        let label = format!("udp-stray|{}|{}", ["quake2", "gamespy1", "valve"][which as usize], if v6 { "v6" } else { "v4" });
-        let detail = |what: &str| json!({"what": what, "case": label, "timeout_ms": timeout, "retries": retries, "elapsed_ms": el.as_millis() as u64, "bound_ms": bound.as_millis() as u64, "stray_datagrams_sent": sent, "stray_payload": hex(&junk)});
+        let label = format!("udp-stray|{}", if v6 { "v6" } else { "v4" });
+        let detail = |what: &str| json!({"what": what, "case": label, "timeout_ms": timeout, "elapsed_ms": el.as_millis() as u64, "bound_per_receive_ms": bound.as_millis() as u64, "stray_datagrams_sent": sent, "stray_payload": hex(&junk)});
         match r {
-            Err(_) => cx.violation(format!("C12 timeout-not-bounding udp-stray {}", if v6 { "v6" } else { "v4" }), || detail("the query was still running after three times the bound; it ended only when the stray traffic stopped")),
+            Err(_) => cx.violation(format!("C12 timeout-not-bounding udp-stray {}", if v6 { "v6" } else { "v4" }), || detail("a receive was still blocked long after its timeout; it ended only when the stray traffic stopped")),
             Ok(Outcome::Panicked(p)) => cx.violation(format!("C12 panic at {} msg=\"{}\"", p.loc, norm_msg(&p.msg)), || detail(&p.msg)),
-            Ok(Outcome::Returned(Ok(()))) => cx.violation("C12 udp-stray ok-without-a-server-reply", || detail("the server never answered")),
-            Ok(Outcome::Returned(Err(k))) => {
-                if el > bound {
-                    // one slow run on a loaded machine is not a verdict
-                    cx.inconclusive("udp-stray: elapsed above the bound once (not re-run)");
+            Ok(Outcome::Returned(Ok(steps))) => {
+                if steps.iter().any(|(t, _)| *t > bound) {
+                    cx.inconclusive("udp-stray: one receive above the bound once (not re-run)");
                 } else {
                     cx.shape(&label);
-                    cx.nontrivial(hash64(label.as_bytes()) ^ timeout ^ ((retries as u64) << 32) ^ hash64(&junk));
-                    cx.count(&format!("udp-stray-ok|{}", kind_name(&k)));
+                    cx.nontrivial(hash64(label.as_bytes()) ^ timeout ^ hash64(&junk));
+                    cx.count(&format!("udp-stray-ok|receives-returning-data={}", steps.iter().filter(|(_, ok)| *ok).count()));
                 }
             }
+            Ok(Outcome::Returned(Err(e))) => cx.inconclusive(&format!("udp-stray: socket could not be set up ({:?})", e.kind)),
             _ => {}
         }
     }
@@ -966,7 +971,7 @@ impl Check for C12 {
     }
     fn level(&self) -> &'static str { "fault_enumeration" }
     fn rule(&self) -> String {
-        "real loopback sockets. (1) syscall log: a child running UdpSocketImpl/TcpSocketImpl new+send+receive under strace -f for UDP/TCP x IPv4/IPv6 x timeout triples (each member Some or None) x payloads; an offline checker asserts SO_RCVTIMEO/SO_SNDTIMEO equal to the configured values on every socket before its first I/O, a non-blocking connect polled with the configured connect timeout, wire bytes equal to the payload and the destination equal to the caller's address; an Eco query against an HTTP server that stalls in the middle of the body (any JSON nesting depth, Content-Length or chunked) performs exactly one read that runs into the timeout and fails with PacketReceive. (2) behaviour: 13 protocol entry points + Eco against loopback servers that fall silent after 0-3 replies, keep a TCP connection open without writing, or refuse (Eco also with the write and/or connect timeout None, with no settings at all = the 4 s defaults, with a connect timeout far above the read timeout, and against a server that redirects and then falls silent), for timeouts {50,150,400} ms x retries 0-2 x IPv4/IPv6: error class and elapsed <= (retries+1) x 8 x timeout + 3 s (a breach is re-run twice; only a 3-fold breach counts). a TCP server that sends part or all of a reply and then holds the connection open must give PacketReceive in time; a silent UDP server while a third party sends stray datagrams to the client's port every timeout/4 must still end within the bound. (3) integrity: direct send/receive against an echo peer for payload sizes {0,1,2,1023,1024,1025,6144,65507} and random, reply truncated to the requested size. (4) fidelity: the same reactive model server scripted and over loopback gives identical results. non-trivial = a case whose oracle ran to a verdict; distinct by (kind, parameters, payload)".into()
+        "real loopback sockets. (1) syscall log: a child running UdpSocketImpl/TcpSocketImpl new+send+receive under strace -f for UDP/TCP x IPv4/IPv6 x timeout triples (each member Some or None) x payloads; an offline checker asserts SO_RCVTIMEO/SO_SNDTIMEO equal to the configured values on every socket before its first I/O, a non-blocking connect polled with the configured connect timeout, wire bytes equal to the payload and the destination equal to the caller's address; an Eco query against an HTTP server that stalls in the middle of the body (any JSON nesting depth, Content-Length or chunked) performs exactly one read that runs into the timeout and fails with PacketReceive. (2) behaviour: 13 protocol entry points + Eco against loopback servers that fall silent after 0-3 replies, keep a TCP connection open without writing, or refuse (Eco also with the write and/or connect timeout None, with no settings at all = the 4 s defaults, with a connect timeout far above the read timeout, and against a server that redirects and then falls silent), for timeouts {50,150,400} ms x retries 0-2 x IPv4/IPv6: error class and elapsed <= (retries+1) x 8 x timeout + 3 s (a breach is re-run twice; only a 3-fold breach counts). a TCP server that sends part or all of a reply and then holds the connection open must give PacketReceive in time; under stray datagrams from a third party every timeout/4, each single UDP receive still returns within its timeout. (3) integrity: direct send/receive against an echo peer for payload sizes {0,1,2,1023,1024,1025,6144,65507} and random, reply truncated to the requested size. (4) fidelity: the same reactive model server scripted and over loopback gives identical results. non-trivial = a case whose oracle ran to a verdict; distinct by (kind, parameters, payload)".into()
     }
     fn assumptions(&self) -> Vec<String> {
         vec![
